@@ -696,7 +696,7 @@ func init() {
 		ID: "C04", Level: "exploration",
 		Rule: "a case = (ground-truth SSA model, rendering choices) chosen by the E1 explorer. Model: script info (15 fields, comments), 0..s styles over all 23 typed attributes sharing one Format, Dialogue events with every column (start/end cs, layer or marked, margins, effect, name, style reference incl. '*' forms), text of lines x runs (override block + text, commas, colons, look-alike cells). Value tables (boundary-complete, every one inside a full product and in the deviation balls): style / speaker names plain, with a blank, digits only, with ':' ';' '[..]', non-ASCII, the keywords Default/Format/Style/Dialogue, '*'-prefixed; font names with a blank, '@' prefix, non-ASCII, empty; floats 0, negative, 1-3 decimals, 1000.125, the truncation-sensitive 2.675 / 1.005 / 0.07, integer-valued; Alignment 1..11, BorderStyle 1/3, Encoding 0/1/128/134/204/255, margins 0/9/10/99/100/1234/9999/negative; colours all-zero, all-ones, each single byte 0xFF, 0x7FFFFFFF, 0x80000000, 0x80000008 (= -2147483640); times at the .00/.01/.05/.10/.50/.99 fractions and the second/minute/hour/10 h/24 h/100 h boundaries; layer 0..1000000; effects with ';' fields, blanks, ':'; 11 override blocks (several tags, {=0}, blanks, commas, ':'); 30 text atoms (commas, ':', ';', brackets, tab, NBSP, \\h, non-ASCII, emoji, keywords, a Dialogue look-alike, empty, outer blanks); every script-info field with >= 2 values incl. URL / clock-time / comma / non-ASCII / keyword / section-name contents, PlayRes 0..100000, Timer 0 / 0.125 / 33.3333 / 1000.5, WrapStyle 0..3, ScriptType case variants, comments empty / with ':' / ';' / '[' / non-ASCII. Rendering: v4 / v4+, column order of both Format lines (every transposition, rotation and the reversal of the full column list; every permutation in the core products), column subsets, Text last, section-name case and [V4 Styles+], H: vs HH: times, 6 colour encodings (&H upper/lower/6-digit/no leading zeros, signed/unsigned decimal), booleans -1/0, 3 float forms (20 / 20.0 / 20.000), padded event and style margins, \\N / \\n, EOL kinds, BOM, unterminated last line, blank lines, Format separators, 0/1/2 blanks after 'Key:', trailing blank or tab on every line, field order, comment forms, Timer forms (100 / 100.0000 / 100,0000), a known field with empty content, junk (colon-less lines, unknown keys, Comment/Picture/Sound/Movie/Command events, unknown sections holding look-alike lines). Read: ReadFromSSA(render(model)) must denote the model (info, style table, events compared separately). Write: WriteToSSA(model) must denote the model to ReadFromSSA and to the independent Format-driven decoder (true <=> -1), and write(read(write(model))) must be byte-identical to write(model); known writer defects are matched as exact model transformations so everything else stays compared. non-trivial = non-baseline case, distinct by rendered bytes (read) or by model (write)",
 		Scope: map[core.Tier]string{
-			core.Quick:    "structure products (styles: <=2 styles x subsets of 4 attributes x all column permutations x 2 radices x v4/v4+; events: all permutations of 5 columns x layer/marked x style reference x time form x EOL; text shapes; star names; info: subsets of 6 fields x comments x junk x EOL) + value products (style: version x attribute x every value of its kind x every encoding of the kind x 3 column layouts x key separator; names: style name x font name x reference form x speaker; event: start x end offset x time form x column order, layer/marked/each margin x value x padding x order, effect x speaker x order x key separator; text: atom x block x 5 placements x break kind, atom x atom as two lines / around an empty line / around a block; info: field x value x key separator x trailing blanks x company x EOL, comment x comment x form x position; syntax: key separator x trailing blanks x EOL x section case x Format separator x BOM x final EOL x blank lines x empty field; many: 3..300 events / 3..257 styles / 3..257 comments / 4..50 lines / 4..50 runs, all distinct, x version x EOL) + deviation ball B=2 over all choice points (<=2 styles, <=2 events, <=2 lines, <=3 runs)",
+			core.Quick:    "structure products (styles: <=2 styles x subsets of 4 attributes x all column permutations x 2 radices x v4/v4+; events: all permutations of 5 columns x layer/marked x style reference x time form x EOL; text shapes; star names; info: subsets of 6 fields x comments x junk x EOL) + value products (style: version x attribute x every value of its kind x every encoding of the kind x 3 column layouts x key separator; names: style name x font name x reference form x speaker; event: start x end offset x time form x column order, layer/marked/each margin x value x padding x order, effect x speaker x order x key separator; text: atom x block x 5 placements x break kind, atom x atom as two lines / around an empty line / around a block; info: field x value x key separator x trailing blanks x company x EOL, comment x comment x form x position; syntax: key separator x trailing blanks x EOL x section case x Format separator x BOM x final EOL x blank lines x empty field; many: 3..300 events / 3..257 styles / 3..257 comments / 4..50 lines / 4..50 runs, all distinct, x version x EOL) + deviation ball B=2 over all choice points (<=2 styles, <=2 events, <=2 lines, <=3 runs); colour pairs (2 cells x 8 values whose digits read alike in another radix x 4 notations each x same / other style x version); every hundredth of a second after 0 s, 1 s, 59 s, 59:59, 9:59:59",
 			core.Thorough: "all products + deviation ball B=2 as in quick but <=3 styles, <=3 events, <=3 lines + deviation ball B=3 with the column orders reduced to adjacent transpositions, rotations and the reversal",
 		},
 		Assumptions: []string{"Go toolchain and standard library", "independent reference codec engine/ref/ssa",
